@@ -139,7 +139,7 @@ CLAIMS = {
     },
     "C19": {
         "category": "other",
-        "text": "PARTIAL: kernel-checked deterministic backbone c19_error_map_partial, c19_residual_map_partial (incl. trace = N-M-P), c19_scale_invariance_partial; the frequency statement (coverage p, mean chi2 1) needs distribution theory not available in Mathlib and is only explored by Monte-Carlo coverage counts on the real code with 6-sigma acceptance bounds.",
+        "text": "PARTIAL: kernel-checked deterministic backbone c19_error_map_partial, c19_residual_map_partial (incl. trace = N-M-P), c19_scale_invariance_partial, and the moment clauses for EVERY noise distribution (expectation = arbitrary linear functional): c19_unbiased, c19_covariance (error covariance = s (H_w^T H_w)^-1), c19_band_variance, c19_chi2_mean (mean reduced chi2 = s, hence 1 for weights exactly 1/sigma_i) in the linear regime; the coverage statement (Student-t pivots => relative frequency p) needs distribution theory not available in Mathlib and is only explored by Monte-Carlo coverage counts on the real code with 6-sigma acceptance bounds.",
         "note": "Not claimed as proof. The statistics code itself is covered by C12-C14 (proof level).",
         "technique": "partial Lean 4 proof (named ..._partial) + Monte-Carlo coverage test on the real code",
     },
